@@ -42,6 +42,12 @@ type SiteSpec struct {
 	Hints   []*Clause // integer terms offered as instantiation candidates for quantified facts (no logical content)
 }
 
+type BoundedSpec struct {
+	File  string // harness, relative to /verif/bounded
+	Test  string // test function name
+	Bound string // the stated bound (free text, reported)
+}
+
 type GhostUpdate struct {
 	Target string
 	Value  *Clause
@@ -76,6 +82,13 @@ type Contract struct {
 	Pure     bool
 	Modifies []string
 	Preserves []string
+	// PrivateCaptures (closures): the variables captured by reference are
+	// written only by this closure while it runs (calls made by the closure do
+	// not reach them).  ASSUMPTION, reported in the evidence.
+	PrivateCaptures bool
+	// Bounded stand-in (never counted as proved): an exhaustive test of the
+	// real function up to a stated bound, injected with `go test -overlay`.
+	Bounded *BoundedSpec
 	Assumed  bool
 	Lemma    bool
 	NonNil   bool // externals: result is non-nil
@@ -95,7 +108,7 @@ type ContractFile struct {
 	Ghosts    map[string]string
 }
 
-var kwRe = regexp.MustCompile(`^(func|props|mode|requires|ghostinit|ensures_thorough|ensures|safe|pure|modifies|preserves|assumed|lemma|nonnil|loop|invariant|unroll|decreases|site|assert|assume|hint|ghostset|ghostdecl|spec|note|end)\b`)
+var kwRe = regexp.MustCompile(`^(func|props|mode|requires|ghostinit|ensures_thorough|ensures|safe|pure|bounded|privatecaptures|modifies|preserves|assumed|lemma|nonnil|loop|invariant|unroll|decreases|site|assert|assume|hint|ghostset|ghostdecl|spec|note|end)\b`)
 var ghostInitRe = regexp.MustCompile(`^ghost\([A-Za-z0-9_.]+,\s*"[A-Za-z0-9_]+"\)\s*==\s*-?[0-9]+$`)
 var ghostNameRe = regexp.MustCompile(`ghost(?:at)?\((?:[^"]*)"([A-Za-z0-9_]+)"\)`)
 var labelRe = regexp.MustCompile(`^\[([A-Za-z0-9_.\-]+)\]\s*`)
@@ -227,6 +240,15 @@ func ParseContractFile(path, pkgPath string) (*ContractFile, error) {
 			}
 			cur.GhostInit = append(cur.GhostInit, c)
 			curLoop, curSite = nil, nil
+		case "bounded":
+			// bounded <file> <TestName> <bound text...>
+			fs := strings.Fields(rest)
+			if len(fs) < 3 {
+				return nil, fmt.Errorf("%s:%d: bounded needs <file> <TestName> <stated bound>", path, rl.line)
+			}
+			cur.Bounded = &BoundedSpec{File: fs[0], Test: fs[1], Bound: strings.Join(fs[2:], " ")}
+		case "privatecaptures":
+			cur.PrivateCaptures = true
 		case "safe":
 			cur.Safe = true
 		case "pure":
